@@ -89,7 +89,11 @@ func (fm *Frame) Eval(src parse.Source, r diag.Ranger, ns *Ns) (*Ns, error) {
 
 // InputChan returns a channel from which input can be read.
 func (fm *Frame) InputChan() chan any {
-	return fm.ports[0].Chan
+	if ch := fm.ports[0].Chan; ch != nil {
+		return ch
+	}
+	// A closed port, or a file opened for output, never produces any values.
+	return ClosedChan
 }
 
 // InputFile returns a file from which input can be read.
@@ -135,7 +139,7 @@ func (fm *Frame) IterateInputs(f func(any)) {
 		wg.Done()
 	}()
 	go func() {
-		for v := range fm.ports[0].Chan {
+		for v := range fm.InputChan() {
 			inputs <- v
 		}
 		wg.Done()
